@@ -601,9 +601,12 @@ KNOWN_CLASSES = {
     "repeated-clusters": "input cluster numbering with equal neighbours + a reordering shaper: merge_clusters after the reorder leaves "
                          "one of two characters that share an input cluster value in the other output cluster "
                          "(e.g. Malayalam <0D46:0,0D46:1,0D30:1> level 1 -> clusters 0,0,1)",
-    "arabic-pcm-stch": "Syriac abbreviation mark U+070F / Arabic prepended concatenation marks (U+0600..0605, 06DD, 0890, 0891, 08E2): "
-                       "ot_shaper_arabic.rs stretches / positions them over the following word (apply_stch) without setting any "
-                       "glyph flag, so cutting or re-joining next to them changes their glyphs' offsets",
+    "arabic-pcm-stch": "Syriac abbreviation mark U+070F / Arabic prepended concatenation marks (U+0600..0605, 06DD, 0890, 0891, 08E2) in a "
+                       "font with the `stch` feature: ot_shaper_arabic.rs::apply_stch tiles them over the following word and flags "
+                       "mark + word unsafe_to_break, but nothing marks the END of the word (or the mark itself when the word is empty) "
+                       "unsafe_to_concat (same in HarfBuzz): re-joining segments so that other word characters / marks come to stand "
+                       "next to the mark or its word changes the number and offsets of the tiles.  Decided per case "
+                       "(stch_attribution): no cut inside a mark + word span, only glyphs of marks whose context changed differ",
 }
 
 
@@ -621,15 +624,73 @@ KNOWN_CLASSES["syllabic-concat"] = (
     "(e.g. Thai <0E4C | 0E01 | 0E33> -> <0E4C,0E33>; Devanagari <091F,094D,0930,094D | 0020 | 091F,094D,0930>)")
 
 
-def known_class(s, kind="break"):
-    """signature of a documented finding class this shaping falls into, or None (= anything that differs is new)"""
+def stch_attribution(s, o):
+    """is this DIFF of the concat redistribution experiment the documented upstream behaviour of apply_stch — and nothing else?
+    Decided from the concrete cut and the concrete difference, not from the text alone:
+      (a) the text has a stretching mark (PCM);
+      (b) NO cut lies inside a span apply_stch flags: for a mark at i, followed by further marks up to j and the word [j, e),
+          none of the boundaries i+1 .. e-1 is a segment start (a cut there means the flag apply_stch owes is missing);
+      (c) the redistribution gave some mark a different stretch context (neighbouring marks + following word) than it has in
+          the whole text — text moved next to a mark / its word — and
+      (d) every glyph that differs belongs to the cluster of such a mark."""
+    if not o or not o.get("pieces") or o.get("recon") is None or not o.get("whole"):
+        return False
+    text, n = s.text, len(s.text)
+    marks = [i for i, ch in enumerate(text) if ord(ch) in PCM]
+    if not marks:
+        return False
+    segs = sorted(o["pieces"])
+    cuts = {a for a, b in segs if a > 0}
+
+    def context(t, i):
+        a = i
+        while a > 0 and ord(t[a - 1]) in PCM: a -= 1
+        j = i + 1
+        while j < len(t) and ord(t[j]) in PCM: j += 1
+        e = j
+        while e < len(t) and is_word_char(t[e]): e += 1
+        return a, j, e
+
+    for i in marks:
+        _, _, e = context(text, i)
+        if any(i < p < e for p in cuts):
+            return False
+    seg_of = {}
+    for j, (a, b) in enumerate(segs):
+        for k in range(a, b):
+            seg_of[k] = j
+    par = {0: [k for k in range(n) if seg_of.get(k, -1) % 2 == 0], 1: [k for k in range(n) if seg_of.get(k, -1) % 2 == 1]}
+    whole_cl = sorted({g[1] for g in o["whole"]})
+    changed = set()
+    for i in marks:
+        if i not in seg_of:
+            return False
+        idx = par[seg_of[i] % 2]
+        t2 = "".join(text[k] for k in idx)
+        a, j, e = context(text, i)
+        a2, j2, e2 = context(t2, idx.index(i))
+        if text[a:e] != t2[a2:e2] or i - a != idx.index(i) - a2:
+            below = [c for c in whole_cl if c <= s.clusters[i]]
+            if below:
+                changed.add(below[-1])
+    if not changed:
+        return False
+    per = lambda gl: {c: [(g[0],) + tuple(g[3:]) for g in gl if g[1] == c] for c in {g[1] for g in gl}}
+    pw, pr = per(o["whole"]), per(o["recon"])
+    differing = {c for c in set(pw) | set(pr) if pw.get(c) != pr.get(c)}
+    return bool(differing) and differing <= changed
+
+
+def known_class(s, kind="break", o=None):
+    """signature of a documented finding class this DIFF falls into, or None (= anything that differs is new).
+    `o` = the verifier's outcome (cuts made, whole and reassembled glyphs): the class arabic-pcm-stch is decided from it."""
     if s.g["aat"]:
         return "aat"
     if shaped_reversed(s):
         return "reversed"
     if len(set(s.clusters)) < len(s.clusters):
         return "repeated-clusters"
-    if any(ord(c) in PCM for c in s.text):
+    if kind == "concat" and stch_attribution(s, o):
         return "arabic-pcm-stch"
     if kind == "concat" and (s.script or "").capitalize() in SYLLABIC_SCRIPTS:
         return "syllabic-concat"
@@ -1066,7 +1127,7 @@ KNOWN_CLASSES["nested-delete-drift"] = (
     "substitutes / deletes that glyph, which lies outside the span flagged by unsafe_to_break / unsafe_to_concat")
 
 
-def synth_known_class(s, kind="break"):
+def synth_known_class(s, kind="break", o=None):
     """synthetic fonts have no marks, digits, variation selectors and no reordering shaper.  Documented classes they can
     fall into, decided from the recipe alone (over-approximation; fonts of profile `core` are in none of them):
     ligatures under a reversed buffer (class `reversed`), multi-glyph sequences + deletion, records after a deleting record"""
@@ -1229,8 +1290,174 @@ def make_di_shaping(r, g, flags, preserve=4, remove=8):
     return s
 
 
-def di_known_class(s, kind="break"):
+def di_known_class(s, kind="break", o=None):
     return "reversed" if shaped_reversed(s) else None
+
+
+# ------------------------------------------------------------------------------------------------
+# the Arabic shaper's `stch` post-processing (ot_shaper_arabic.rs::record_stch / apply_stch): every glyph multiplied while the
+# `stch` feature ran becomes a fixed (even component) or repeating (odd component) tile; after positioning the repeating
+# tiles are copied until the tiles fill the summed advance of the WORD that follows the stretching mark in the text (glyphs of
+# word category — letters other than cased ones, marks, numbers, symbols — and default ignorables), and all tiles get
+# offsets.  So the tiles of a mark depend on every glyph of its word; apply_stch flags mark + word unsafe_to_break.
+
+STCH_SCRIPTS = {
+    # script: (font script tag, marks that fonts stretch, word characters, separators = not word category)
+    "Arab": ("arab", [0x0600, 0x0601, 0x0602, 0x0603, 0x0604, 0x0605, 0x06DD, 0x0890, 0x0891, 0x08E2],
+             [0x0660, 0x0661, 0x0662, 0x0031, 0x0032, 0x0621, 0x0627, 0x062F, 0x0648, 0x0628, 0x0644, 0x064E, 0x200C, 0x200D, 0x06F1],
+             [0x0020, 0x060C, 0x002E, 0x0061, 0x066B]),
+    "Syrc": ("syrc", [0x070F],
+             [0x0030, 0x0031, 0x0032, 0x0710, 0x0712, 0x0715, 0x0718, 0x0730, 0x200C, 0x034F],
+             [0x0020, 0x0700, 0x002E, 0x0061]),
+}
+WORD_GC = {"Cn", "Co", "Lm", "Lo", "Mc", "Me", "Mn", "Nd", "Nl", "No", "Sc", "Sk", "Sm", "So"}     # is_word_category
+
+
+def is_default_ignorable_cp(c):
+    return (c in (0x00AD, 0x034F, 0x061C, 0x115F, 0x1160, 0x17B4, 0x17B5, 0x3164, 0xFEFF, 0xFFA0) or 0x180B <= c <= 0x180F
+            or 0x200B <= c <= 0x200F or 0x202A <= c <= 0x202E or 0x2060 <= c <= 0x206F or 0xFE00 <= c <= 0xFE0F
+            or 0xFFF0 <= c <= 0xFFF8 or 0x1D173 <= c <= 0x1D17A or 0xE0000 <= c <= 0xE0FFF)
+
+
+def is_word_char(ch):
+    import unicodedata
+    return ord(ch) not in PCM and (unicodedata.category(ch) in WORD_GC or is_default_ignorable_cp(ord(ch)))
+
+
+def stch_recipe(r):
+    """a fontbuild recipe for the Arabic shaper: one glyph per mark / word character / separator, 2-5 tile glyphs; feature
+    `stch` = MultipleSubst of every mark into 2-5 tiles (components 0, 2, 4 fixed; 1, 3 repeating); advances drawn so that
+    words are shorter, about as long as, or several times longer than the tiles; half of the fonts also have positional
+    forms (isol / init / medi / fina) for the joining letters, so joining flags mix with the stretch flags"""
+    script = r.choice(["Arab", "Arab", "Syrc"])
+    tag, marks, words, seps = STCH_SCRIPTS[script]
+    marks = r.sample(marks, r.range(1, min(3, len(marks))))
+    chars = marks + [c for c in words if not is_default_ignorable_cp(c)] + seps
+    cmap = {cp: 1 + j for j, cp in enumerate(chars)}
+    n = 1 + len(chars)
+    ntiles = r.range(2, 5)
+    tiles = list(range(n, n + ntiles)); n += ntiles
+    forms = {}
+    if r.chance(1, 2):
+        for cp in (0x0628, 0x0644, 0x0712):
+            if cp in cmap:
+                forms[cmap[cp]] = n; n += 1
+    adv = [0] * n
+    for cp, g in cmap.items():
+        adv[g] = r.choice([0, 100, 250]) if cp in marks else (0 if cp in (0x064E, 0x0730) else r.range(150, 700))
+    for g in tiles:
+        adv[g] = r.choice([0, 40, 90, 150, 300, 500]) if r.chance(1, 6) else r.range(40, 300)
+    for g in forms.values():
+        adv[g] = r.range(150, 700)
+    mg = sorted(cmap[m] for m in marks)
+    lookups = [{"type": 2, "flag": 0, "subtables": [{"coverage": mg, "sequences": [
+        [r.choice(tiles) for _ in range(r.range(2, 5))] for _ in mg]}]}]
+    feats = [{"tag": "stch", "lookups": [0]}]
+    if forms:
+        lookups.append({"type": 1, "flag": 0, "subtables": [{"format": 2, "coverage": sorted(forms),
+                                                             "subst": [forms[g] for g in sorted(forms)]}]})
+        for t in r.sample(["isol", "init", "medi", "fina"], r.range(1, 4)):
+            feats.append({"tag": t, "lookups": [1]})
+    scripts = [{"tag": tag, "default": {"required": None, "features": list(range(len(feats)))}, "langs": []}]
+    if script == "Arab" and r.chance(1, 2):
+        scripts[0]["tag"] = "DFLT"
+    rec = {"num_glyphs": n, "cmap": cmap, "advances": adv,
+           "gsub": {"scripts": scripts, "features": feats, "lookups": lookups}}
+    return rec, script, marks
+
+
+def _stch_group(fid, reg, font, script, marks, words, seps, recipe=None):
+    c = SynthCase()
+    c.name, c.font, c.index, c.text = fid, font, 0, ""
+    c.dir, c.script, c.lang, c.flags, c.level, c.feats = None, script, None, 0, 0, []
+    c.pre, c.post, c.extra, c.opts = "", "", [], ""
+    return {"fid": fid, "reg": reg, "cases": [c], "aat": False, "alphabet": [chr(x) for x in words], "synthetic": recipe is not None,
+            "profile": "stch", "recipe": recipe, "stch_marks": [chr(x) for x in marks], "separators": [chr(x) for x in seps]}
+
+
+def stch_groups(r, count, prefix="T"):
+    """synthetic stch fonts + every OpenType font under tests/fonts whose GSUB names the `stch` feature (for those the marks
+    are all PCM characters of the script; which of them the font stretches is the font's business)"""
+    groups = []
+    while len(groups) < count:
+        rec, script, marks = stch_recipe(r)
+        try:
+            hx = fontbuild.hexfont(rec)
+        except fontbuild.FontBuildError:
+            continue
+        fid = f"{prefix}{len(groups)}"
+        _, _, words, seps = STCH_SCRIPTS[script]
+        groups.append(_stch_group(fid, f"font {fid} {hx}", f"synthetic:{fid}", script, marks, words, seps, rec))
+    k = 0
+    for dp, dn, fn in sorted(os.walk(os.path.join(vlib.REPO, "tests", "fonts"))):
+        for f in sorted(fn):
+            p = os.path.join(dp, f)
+            try:
+                data = open(p, "rb").read()
+            except OSError:
+                continue
+            if data[:4] == b"ttcf" or b"stch" not in data:
+                continue
+            tabs = sfnt_tables(p)
+            if "GSUB" not in tabs or "morx" in tabs:
+                continue
+            for script in sorted(STCH_SCRIPTS):
+                if STCH_SCRIPTS[script][0].encode() not in data:
+                    continue
+                fid = f"{prefix}f{k}"; k += 1
+                _, marks, words, seps = STCH_SCRIPTS[script]
+                groups.append(_stch_group(fid, f"fontfile {fid} {p} 0", p, script, marks, words, seps))
+    return groups
+
+
+def make_stch_shaping(r, g, flags):
+    """[separator] then 1-3 times: stretching mark (sometimes two), a word of 0-4 word characters, sometimes a separator and
+    a second word; the script's own direction (right to left) 3 in 4, else forced left to right"""
+    t = []
+    word = lambda a, b: [r.choice(g["alphabet"]) for _ in range(r.range(a, b))]
+    if r.chance(1, 3):
+        t += word(0, 2) + [r.choice(g["separators"])]
+    for _ in range(r.range(1, 3)):
+        t.append(r.choice(g["stch_marks"]))
+        if r.chance(1, 8):
+            t.append(r.choice(g["stch_marks"]))
+        t += word(0, 4)
+        if r.chance(1, 2):
+            t += [r.choice(g["separators"])] + word(0, 3)
+    t = t[:16]
+    s = Shaping()
+    s.g = g
+    s.case = g["cases"][0]
+    s.text = "".join(t)
+    s.clusters = rand_clusters(r, len(s.text), False)
+    s.req_dir = r.choice(["r", "r", "r", "l"])
+    s.dir = s.req_dir
+    s.script = s.case.script
+    s.flags = flags | r.choice([0, 3, 3, 3])
+    s.level = r.choice((0, 1))
+    s.extra = []
+    s.pre, s.post = "", ""
+    s.subset = None
+    s.line = None
+    return s
+
+
+def stch_known_class(s, kind="break", o=None):
+    """break: apply_stch flags everything the tiles depend on, so nothing is documented (any DIFF outside `reversed` is new);
+    concat: the class arabic-pcm-stch, decided from the cut and the difference"""
+    if shaped_reversed(s):
+        return "reversed"
+    if kind == "concat" and stch_attribution(s, o):
+        return "arabic-pcm-stch"
+    return None
+
+
+STCH_RULE = ("fonts with the `stch` feature (synthetic, tools/flagslib.py::stch_recipe: Arabic / Syriac script tags or DFLT, 1-3 stretching "
+             "marks of U+0600..0605, 06DD, 0890, 0891, 08E2 / U+070F multiplied into 2-5 fixed / repeating tiles, advances from 0 to "
+             "several tile widths, half with positional forms for the joining letters; plus every OpenType font under tests/fonts "
+             "whose GSUB names stch) x texts of [separator] (mark [mark] word-of-0-4 [separator word])x1-3 with words over digits, "
+             "non-joining / right-joining / dual-joining letters, a vowel mark, ZWNJ / ZWJ / CGJ and separators space, punctuation, "
+             "a cased letter (not word category) x direction r (3 in 4) / forced l x levels 0/1; ")
 
 
 # ------------------------------------------------------------------------------------------------
@@ -1360,7 +1587,7 @@ def make_fraction_shaping(r, g, flags, dirs=("l", "r", "l", "r", "t", "b"), leve
     return s
 
 
-def fraction_known_class(s, kind="break"):
+def fraction_known_class(s, kind="break", o=None):
     if s.g.get("synthetic"):
         return "reversed" if shaped_reversed(s) else None
-    return known_class(s, kind)
+    return known_class(s, kind, o)
